@@ -238,10 +238,10 @@ obl('C18.POISON-OK', FH + 'HalfLock::write', 'returns a working guard when the m
 UNITS['native_half_lock'] = dict(name='half_lock_poison', engine='static', module='native_unit', entry='run_native', source='/verif/native/half_lock_poison.rs')
 obl('C18.MUTEX-HELD', FH + 'HalfLock::write', 'mutex held while the guard lives')
 obl('C18.MUTEX-RELEASED', FH + 'WriteGuard drop glue', 'mutex released on guard drop')
-PROPS['C01'] = dict(level='proof', units=['half_lock'], trusted=L('A1', 'A2', 'A7', 'A8', 'A9', 'A10'),
+PROPS['C01'] = dict(level='proof', units=['half_lock', 'registry'], trusted=L('A1', 'A2', 'A7', 'A8', 'A9', 'A10'),
     technique='trace contracts on the real half_lock.rs under an environment that havocs counters and generation before every access, Kani/CBMC',
     explanation='Reader protocol order, barrier post-condition (both slots seen zero after the swap), swap-barrier-free order and free-exactly-once are proved on the real code for arbitrary counter/generation values; the whole-program quiescence theorem follows by the L-RCU argument in DESIGN.md.')
-PROPS['C18'] = dict(level='other', units=['half_lock', 'native_half_lock'], trusted=L('A1', 'A2', 'A7', 'A8', 'A10') + ['fairness-based liveness (every fair execution terminates) is not decidable by contracts; proved are the obligations the termination argument rests on'],
+PROPS['C18'] = dict(level='other', units=['half_lock', 'native_half_lock', 'registry'], trusted=L('A1', 'A2', 'A7', 'A8', 'A10') + ['fairness-based liveness (every fair execution terminates) is not decidable by contracts; proved are the obligations the termination argument rests on'],
     technique='progress obligations (sticky seen flags, single flip before waiting, poison tolerance, quiescent termination) as contracts on the real half_lock.rs, Kani/CBMC',
     explanation='Contracts prove the safety-shaped obligations that the termination argument needs; termination itself is proved for a quiescent environment (complete) and for <= K non-zero answers (bounded).')
 
@@ -326,7 +326,8 @@ PROPS['C12'] = dict(level='other', units=['backend', 'backend_small', 'native_c1
 
 # --------------------------------------------------------------------------------------------
 _RS = 'signal-hook-registry/src/lib.rs'
-_MAPRW = [(_RS, r'use std::collections::hash_map::Entry;', '#[cfg(not(kani))] use std::collections::hash_map::Entry;\n#[cfg(kani)] use verif_kani::Entry;', 0),
+_MAPRW = [(_RS, r'\A', '#![cfg_attr(kani, feature(allocator_api))]\n', 1),
+          (_RS, r'use std::collections::hash_map::Entry;', '#[cfg(not(kani))] use std::collections::hash_map::Entry;\n#[cfg(kani)] use verif_kani::Entry;', 0),
           (_RS, r'use std::collections::\{BTreeMap, HashMap\};', '#[cfg(not(kani))] use std::collections::{BTreeMap, HashMap};\n#[cfg(kani)] use verif_kani::OrdMap as BTreeMap;\n#[cfg(kani)] use verif_kani::SmallMap as HashMap;', 0),
           (_RS, r'(?m)^use std::collections::HashMap;', '#[cfg(not(kani))] use std::collections::HashMap;\n#[cfg(kani)] use verif_kani::SmallMap as HashMap;', 0),
           (_RS, r'(?m)^use std::collections::BTreeMap;', '#[cfg(not(kani))] use std::collections::BTreeMap;\n#[cfg(kani)] use verif_kani::OrdMap as BTreeMap;', 0)]
@@ -341,15 +342,15 @@ UNITS['registry'] = dict(
         'c14_registry_check_first': dict(props=['C14'], expected_panics=r'Attempted to register forbidden signal|placeholder message|assertion failed'),
         'c14_forbidden_list': dict(props=['C14']),
         # per-operation contracts from an arbitrary small registry state (WriteGuard::store replaced by its contract)
-        'c05_op_unregister_small': dict(props=['C05', 'C02', 'C18'], kind='bounded', bound=_SHAPE_S),
-        'c05_op_unregister_signal_small': dict(props=['C05', 'C18'], kind='bounded', bound=_SHAPE_S),
-        'c05_op_register_occupied_small': dict(props=['C05', 'C02', 'C18'], kind='bounded', bound=_SHAPE_S),
+        'c05_op_unregister_small': dict(props=['C05', 'C02', 'C18', 'C01'], kind='bounded', bound=_SHAPE_S),
+        'c05_op_unregister_signal_small': dict(props=['C05', 'C18', 'C01', 'C02'], kind='bounded', bound=_SHAPE_S),
+        'c05_op_register_occupied_small': dict(props=['C05', 'C02', 'C18', 'C01'], kind='bounded', bound=_SHAPE_S),
         'c04_op_register_vacant': dict(props=['C04', 'C05', 'C18'], kind='bounded', bound=_SHAPE_S),
         'c02_op_handler': dict(props=['C02', 'C04', 'C03'], kind='bounded', bound=_SHAPE_L),
         'c14_op_register_refused': dict(props=['C14', 'C18'], kind='bounded', bound=_SHAPE_S),
-        'c05_op_unregister': dict(props=['C05', 'C02', 'C18'], tier='thorough', kind='bounded', bound=_SHAPE_L),
-        'c05_op_unregister_signal': dict(props=['C05', 'C18'], tier='thorough', kind='bounded', bound=_SHAPE_L),
-        'c05_op_register_occupied': dict(props=['C05', 'C02', 'C18'], tier='thorough', kind='bounded', bound=_SHAPE_L),
+        'c05_op_unregister': dict(props=['C05', 'C02', 'C18', 'C01'], tier='thorough', kind='bounded', bound=_SHAPE_L),
+        'c05_op_unregister_signal': dict(props=['C05', 'C18', 'C01', 'C02'], tier='thorough', kind='bounded', bound=_SHAPE_L),
+        'c05_op_register_occupied': dict(props=['C05', 'C02', 'C18', 'C01'], tier='thorough', kind='bounded', bound=_SHAPE_L),
         # bounded histories through the real mutators (very expensive; thorough only)
         'c05_history': dict(props=['C05', 'C02'], tier='thorough', kind='bounded', bound='bounded(one fixed history shape, symbolic signals)'),
         'c04_chain': dict(props=['C04'], tier='thorough', kind='bounded', bound='bounded(one fixed history shape)'),
